@@ -177,7 +177,7 @@ fn fam_paths(o: &mut Out, props: &str, seed0: u64, deadline: Instant) {
     let mut k = 0u64;
     'outer: for wk in 0..3u64 {
         for pl in planners() {
-            for (step, radius) in [(0.5, 1.5), (1.0, 0.8), (0.3, 2.0)] {
+            for (step, radius) in [(0.5, 1.5), (1.0, 0.8), (0.3, 2.0), (0.54, 0.4), (0.33, 0.25)] {      // 0.54 / 0.33: not multiples of the motion-check resolution
                 for ds in 0..3u64 {
                     if Instant::now() > deadline { break 'outer; }
                     let seed = seed0.wrapping_mul(1000) + k; k += 1;
